@@ -328,6 +328,8 @@ class SArray(SArrayBase):
         t = _dt(t)
         k = self.dtype.kind
         if t.kind == k:
+            if k == "f" and t.name == "float32" and self.dtype.name != "float32":
+                return SArray([round_float32(a) for a in self.items], t)
             return SArray(self.items, t)
         if t.kind == "b":
             if k == "O":
@@ -497,6 +499,24 @@ class SArray(SArrayBase):
                 return s_not(_eq(v, 0))
             return v
         return v
+
+
+def round_float32(x):
+    """float64 -> float32 cast of a real-valued cell. Exact IEEE semantics inside one binade:
+    a symbolic cell is constrained to [2^23, 2^24) - where float32 values are exactly the
+    integers - and rounded to the nearest integer (exact halves excluded). The restriction is
+    recorded in the path notes of any run that reaches such a cast."""
+    if not isinstance(x, Sym):
+        f = float(x)
+        return Fraction(float(_np.float32(f))) if f == f and abs(f) != inf else x
+    ctx = core.Ctx.cur
+    zx = core._z(x)
+    k = z3.Int(ctx.fresh_name("f32"))
+    half = z3.RealVal(Fraction(1, 2))
+    ctx.assume(z3.And(zx >= 2 ** 23, zx < 2 ** 24, z3.ToReal(k) - half < zx, zx < z3.ToReal(k) + half))
+    ctx.notes.append(("float32_cast_of_symbolic_real", "cell constrained to [2^23, 2^24)"))
+    r = SNum(z3.ToReal(k))
+    return r
 
 
 def _ite_any(c, a, b):
